@@ -2,6 +2,7 @@ import ScVerif.C06.Sched
 import ScVerif.C06.SchedLemmas
 import ScVerif.C06.PropsColl
 import ScVerif.C06.VSched
+import ScVerif.C06.SchedChain
 import ScVerif.C06.PropsValue
 /-!
 # C06 — masked subscriptions under EVERY interleaving of writers' commits and publications
@@ -66,6 +67,17 @@ theorem C06_sched_changes_need_not_chain :
       some (.cons "f" (.msg (.cons "c" (.sc "i2") .nil)) .nil), false, false⟩,
     by decide, by decide, by decide, by decide, by decide⟩
 
+/-- **C06_sched_quiet_changes_chain.**  …and when they do chain: if no writer is parked when the
+subscription opens (after any schedule `pre`) and every later write publishes before the next write
+stores (`Write.steps`; refused writes included), then every published change reports as its old
+value exactly what the subscriber holds for that id — the stored body it was seeded with, or the new
+value of the previous change of that id, nothing for an id it does not hold.  (Only then would taking
+the old value from what was sent before be right; `C06_sched_changes_need_not_chain` is the rest.) -/
+theorem C06_sched_quiet_changes_chain (w0 : World) (pre : List Step) (ws : List Write)
+    (hq : (run w0 pre).1.pending = []) :
+    chains (bodyOf (run w0 pre).1.store) (run (run w0 pre).1 (ws.flatMap Write.steps)).2 :=
+  writes_chain ws _ hq
+
 /-- **C06_sched_value_pull_commutes.**  `Value.Pull` under every interleaving of `Set` halves
 (values stored but not yet published when the subscription opens, publications overtaking each
 other): the masked stream is, value by value, the projection of the unmasked one. -/
@@ -111,6 +123,12 @@ example : session (fun _ => fun _ _ => true) {} none { store := [⟨"x", .cons "
 example : session (fun _ => fun _ _ => true) {} none { store := [⟨"x", .cons "g" (.sc "i1") .nil, 0⟩] }
       [.update "x" (.cons "g" (.sc "i2") .nil), .delete "x"] [.publish 0]
     = some [⟨"x", 3, .update, some (.cons "g" (.sc "i1") .nil), some (.cons "g" (.sc "i2") .nil), false, false⟩] := by
+  decide
+
+/-- the hypothesis of `C06_sched_quiet_changes_chain` is reachable with a non-trivial chain: add, update,
+delete, add again — four changes, each old value = what was held -/
+example : (run {} []).1.pending = []
+    ∧ (run {} ([Write.add "x" exMsg, .update "x" .nil, .delete "x", .add "x" exMsg].flatMap Write.steps)).2.length = 4 := by
   decide
 
 /-- the hypotheses of `C06_sched_value_pending_write_not_sent_twice` are reachable: one `Set` parked -/
